@@ -10,7 +10,7 @@ trip lost a value, whether an unpack accepted something it must not (or rejected
 whether the receive gate let an oversized body through.  It shares nothing with the Lean model."""
 import json, os
 from ..vlib import leanlib, cbuild, judge
-from ..gen import g_wire
+from ..gen import g_wire, g_dec
 
 LEVEL = "proof"
 MAGIC, VERSION, HDR = 0x00606D4B, 4, 11
@@ -518,6 +518,10 @@ def run(ctx):
     h = build(ctx)
     if gen_ok:
         leanlib.check_props(ctx, "C14")
+        # the bridge: the credential model's request parser / reply builders (Model/Cred.lean: recvMsg, encRsp, decRsp) ARE the
+        # generated m_msg.c descriptor lists (Wire.recv / Wire.send) - so C01-C10's model and this one are one model of the wire
+        g_dec.generate(ctx)
+        leanlib.check_props(ctx, "WireCred")
         drv = leanlib.driver(ctx)
     else:
         # the descriptor lists could not be read off the source: Munge/Gen/Wire.lean is stale, so neither the theorems
